@@ -247,6 +247,24 @@ def run(ctx, R, tier):
                     '%s sets the fade to %s, the life cycle requires exactly %s' % (m, d, cst),
                     detail={'method': m, 'target': d}, where=body.where(bb))
     R.floor('B.SM.consts', nconst, 3)
+    # entering Pausing / Stopping / Resuming must start the fade on every path: the edge out of these states is only
+    # taken when the fade tween reports completion, so a state entered without a tween is never left
+    for m in ('pause', 'stop', 'resume'):
+        body = F.body('%s::%s' % (PSM, m))
+        if body is None:
+            continue
+        sets = blocks_of(calls_to(body, 'parameter::Parameter::<T>::set'))
+        for bb, si, st in body.stmts():
+            if st['k'] not in ('assign', 'setdiscr') or pretty_place(body, st['lhs']) != ST:
+                continue
+            from ..paths import describe_rv
+            var = describe_rv(body, st['rv']).split('::')[-1].split('(')[0] if st['k'] == 'assign' else '?'
+            if var not in ('Pausing', 'Stopping', 'Resuming'):
+                continue
+            ok = bool(sets) and must_pass(body, [bb], returns(body), sets)
+            R.check(ok, 'B.SM.fade-start', '%s:%s' % (m, var),
+                    '%s enters %s on a path that does not start the volume fade: update() leaves %s only when the fade tween finishes, '
+                    'so the sound would stay in %s forever' % (m, var, var, var), detail={'method': m, 'state': var}, where=body.where(bb))
 
     # ---- B.SM.decode / B.C03.adv
     decode_rules(F, R)
